@@ -148,11 +148,11 @@ def _info_names_loc(root, after, T, N, loc, mounts):
     p = ML.fss(inf.path)
     if p.startswith('/'):
         return (p == loc), 'info-names-other-path'
-    # relative: accept any mount-point ancestor of T as base (strict base
-    # checking is C03/C07's business)
-    for m in mounts:
-        if (m == '/' or T == m or T.startswith(m + '/')) and ((m if m != '/' else '') + '/' + p) == loc:
-            return True, ''
+    # relative: resolved against the volume the trash directory lives on
+    # (strict base checking per trash-dir kind is C03/C07's business)
+    m = ML.volume_of(mounts, T)
+    if ((m if m != '/' else '') + '/' + p) == loc:
+        return True, ''
     return False, 'info-names-other-path'
 
 
@@ -328,10 +328,7 @@ def judge(root, before, after, named, mounts, extra_allowed_dirs=()):
 
 
 def reported_failed(stderr_text, arg):
-    """does stderr contain a 'cannot trash ... '<arg>'' diagnostic?"""
-    needle = "'%s'" % arg
-    for ln in stderr_text.split('\n'):
-        if 'cannot trash' in ln and needle in ln:
-            return True
-    # multi-line names: search whole text
-    return ("cannot trash" in stderr_text) and (needle in stderr_text) and ('\n' in arg)
+    """does stderr contain a "cannot trash <description> '<arg>'" diagnostic?"""
+    import re
+    pat = r"cannot trash (?:'\.\.?' )?(?:[a-z]+ ){1,3}'" + re.escape(arg) + r"'"
+    return re.search(pat, stderr_text) is not None
